@@ -543,3 +543,101 @@ def maxpad(case, ctx):
                       "was written outside its buffer" % (proto, n, state["padlen"], f, before[f][:16].hex(), after[f][:16].hex()), "maxpad/%s/field/%s" % (proto, f))
     finally:
         s.finish()
+
+
+# ---------------------------------------------------------------------------
+# A live receiver against records another implementation of the same protocol may send: the harness protects them itself with the
+# connection's keys.  One application record in flight is replaced by a generated run of records - empty fragments, short ones, each under
+# the next sequence number or (one of them) under the previous / a skipped one.  Model: a counter; a record under the expected number is
+# accepted (its bytes delivered, the counter advances - also for an empty fragment), any other is rejected and nothing is delivered after it.
+step_s = st.fixed_dictionaries({"len": st.sampled_from([0, 0, 0, 1, 5, 100]), "seq": st.sampled_from(["next"] * 6 + ["previous", "skip"]),
+                                "pad": st.integers(0, 40)})
+crafted_case = st.fixed_dictionaries({"proto": st.sampled_from(net.PROTOS), "dir": st.sampled_from(["c2s", "s2c"]), "seed": st.integers(0, 1 << 20),
+                                      "steps": st.lists(step_s, min_size=2, max_size=5)})
+
+
+@P.sub("crafted", crafted_case, quick=240, thorough=8000, chunk=12)
+def crafted(case, ctx):
+    """live connection: a run of harness-protected application records (empty and short fragments, right / previous / skipped sequence numbers) against the counter model"""
+    from vlib.ref import sm4ks
+    proto, d = case["proto"], case["dir"]
+    if proto == "tls13" and not sm4ks.OK:
+        return
+    shim().freeze_time(pki.T0)
+    state = {"armed": False, "mk": None, "hit": 0}
+    steps = case["steps"]
+    pls = [_bytes("crafted%d/%d" % (case["seed"], i), st_["len"]) for i, st_ in enumerate(steps)]
+
+    def hook(rec):
+        if not state["armed"] or rec.dir != d or rec.raw[0] != 23:
+            return [rec.raw]
+        state["armed"] = False
+        state["hit"] = 1
+        return state["mk"](rec.raw[1:3])
+    s = net.Session(ctx.variant, proto, _pki(proto), hook=hook, seed=case["seed"], quiet_ms=None)
+    try:
+        rc, rs = s.start()
+        hc, hs = s.handshake(timeout=30.0)
+        if hc[0] == "timeout" or hs[0] == "timeout":
+            ctx.note("inconclusive-timeout"); return
+        ctx.check(hc[1] == 1 and hs[1] == 1, "handshake failed %s %s" % (hc, hs), "live/handshake")
+        snd, rcv = (s.client, s.server) if d == "c2s" else (s.server, s.client)
+        c0 = int.from_bytes(snd.field("client_seq_num" if d == "c2s" else "server_seq_num"), "big")
+        # sequence numbers of the run and the model's verdicts
+        seqs, c, expect, dead = [], c0, b"", False
+        for st_, pl in zip(steps, pls):
+            q = c if st_["seq"] == "next" or dead else (c - 1 if st_["seq"] == "previous" else c + 1)
+            q = max(q, 0)
+            seqs.append(q)
+            if not dead and q == c:
+                expect += pl; c += 1
+            else:
+                dead = True
+        if proto == "tls13":
+            rk = __import__("struct").unpack("<32I", snd.field("client_write_key" if d == "c2s" else "server_write_key")[:128])
+            key = sm4ks.key_from_round_keys(rk)
+            iv = snd.field("client_write_iv" if d == "c2s" else "server_write_iv")[:12]
+
+            def mk(ver):
+                out = []
+                for st_, pl, q in zip(steps, pls, seqs):
+                    body = R.tls13_protect(key, iv, q.to_bytes(8, "big"), 23, pl, st_["pad"])
+                    out.append(b"\x17\x03\x03" + len(body).to_bytes(2, "big") + body)
+                return out
+        else:
+            kb = snd.field("key_block")
+            mac_key, enc_key = (kb[0:32], kb[64:80]) if d == "c2s" else (kb[32:64], kb[80:96])
+
+            def mk(ver):
+                out = []
+                for i, (st_, pl, q) in enumerate(zip(steps, pls, seqs)):
+                    body = R.cbc_hmac_protect(mac_key, enc_key, q.to_bytes(8, "big"), 23, ver, pl, _bytes("crafted-iv%d/%d" % (case["seed"], i), 16))
+                    out.append(bytes([23]) + ver + len(body).to_bytes(2, "big") + body)
+                return out
+        state["mk"] = mk
+        state["armed"] = True
+        r = snd.do("send", b"trigger")
+        ctx.check(r[1] == 1, "send failed %r" % (r,), "live/send")
+        snd.do("close")
+        got, rets = b"", []
+        for _ in range(len(steps) + 2):
+            r2 = rcv.do("recv", 4096, timeout=20.0)
+            if r2[0] == "timeout":
+                ctx.note("inconclusive-timeout"); return
+            rets.append(r2[1])
+            if r2[1] != 1:
+                break
+            got += r2[2]
+        empties = sum(1 for st_ in steps if st_["len"] == 0)
+        ctx.case(nontrivial=bool(state["hit"]) and empties > 0, classes=[proto, d, "empty-fragments=%d" % empties, "all-in-order" if not dead else "out-of-order-record"],
+                 ident=case, sample=case)
+        if not state["hit"]:
+            return
+        what = "%s %s: records (length, sequence number relative to the expected one) %s" % (
+            proto, d, [(st_["len"], q - (c0 + i)) for i, (st_, q) in enumerate(zip(steps, seqs))])
+        ctx.check(expect.startswith(got), "%s: the reader was handed %d bytes that the counter model does not deliver (model %d bytes; reads %s)" %
+                  (what, len(got), len(expect), rets), "crafted/%s/accepted-out-of-sequence" % proto)
+        ctx.check(got == expect, "%s: only %d of the %d bytes sent under the right sequence numbers were delivered (reads %s)" %
+                  (what, len(got), len(expect), rets), "crafted/%s/in-sequence-record-refused" % proto)
+    finally:
+        s.finish()
